@@ -5,6 +5,7 @@ package main
 
 import (
 	"fmt"
+	"go/constant"
 	"go/token"
 	"go/types"
 	"sort"
@@ -167,6 +168,9 @@ func (ex *Exec) assumeWF(st *State, v Value) {
 			st.assume(Implies(Eq(x, Int(0)), And(Eq(cp, Int(0)), Eq(off, Int(0)))))
 		case "tag":
 			st.assume(Le(Int(0), x))
+			for _, pt := range ex.repoPtrTags() {
+				st.assume(Implies(Eq(x, Int(int64(pt))), Gt(v.L[i+1], Int(0))))
+			}
 			st.assume(Le(v.L[i+1], st.Alloc))
 			st.assume(Implies(Eq(x, Int(0)), Eq(v.L[i+1], Int(0))))
 		case "str":
@@ -267,6 +271,10 @@ func (ex *Exec) funcID(f *ssa.Function) *Term {
 }
 
 func (ex *Exec) loadGlobal(st *State, name string, t types.Type) Value {
+	if c, ok := ex.globalConsts()[name]; ok {
+		v := constValue(t, c)
+		return v
+	}
 	ls := leavesOf(t)
 	v := Value{T: t, L: make([]*Term, len(ls))}
 	for i, l := range ls {
@@ -623,4 +631,53 @@ func (ex *Exec) tagByName(name string) int {
 		return id
 	}
 	return typeTagByName(name)
+}
+
+var globalConstCache map[string]constant.Value
+
+// globalConsts: package-level variables initialised with a constant in their package's
+// init function (and, by the stated assumption, never written afterwards).
+func (ex *Exec) globalConsts() map[string]constant.Value {
+	if globalConstCache != nil {
+		return globalConstCache
+	}
+	globalConstCache = map[string]constant.Value{}
+	for _, p := range ex.prog.AllPackages() {
+		init := p.Func("init")
+		if init == nil {
+			continue
+		}
+		for _, b := range init.Blocks {
+			for _, ins := range b.Instrs {
+				if stv, ok := ins.(*ssa.Store); ok {
+					g, isG := stv.Addr.(*ssa.Global)
+					c, isC := stv.Val.(*ssa.Const)
+					if isG && isC && c.Value != nil {
+						switch c.Value.Kind() {
+						case constant.String, constant.Int, constant.Bool:
+							globalConstCache[g.Pkg.Pkg.Path()+"."+g.Name()] = c.Value
+						}
+					}
+				}
+			}
+		}
+	}
+	return globalConstCache
+}
+
+var repoPtrTagCache []int
+
+// repoPtrTags: dynamic types *T for the unexported error decorator structs; such values
+// are only ever built by &T{...} inside the package, hence never nil inside an interface.
+func (ex *Exec) repoPtrTags() []int {
+	if repoPtrTagCache != nil {
+		return repoPtrTagCache
+	}
+	repoPtrTagCache = []int{}
+	for _, n := range []string{"*perr.withCode", "*perr.withSeverity", "*perr.withHint", "*perr.withDetail", "*perr.withSource", "*perr.withConstraint"} {
+		if t := ex.typeByName(n); t != nil {
+			repoPtrTagCache = append(repoPtrTagCache, typeTag(t))
+		}
+	}
+	return repoPtrTagCache
 }
